@@ -42,6 +42,16 @@
 #define FIELD_SIZE (1 << 16)
 #define GROUP_SIZE (FIELD_SIZE - 1)
 
+
+#ifdef LIBERASURECODE_VERIF
+/* verification hook (see src/erasurecode.c); defined here because this file is
+ * linked into both liberasurecode and the rs_vand plug-in */
+void (*liberasurecode_verif_yield)(const char *point) = NULL;
+#define VERIF_YIELD(p) do { if (liberasurecode_verif_yield) liberasurecode_verif_yield(p); } while (0)
+#else
+#define VERIF_YIELD(p) do { } while (0)
+#endif
+
 int *log_table = NULL;
 int *ilog_table = NULL;
 int *ilog_table_begin = NULL;
@@ -52,13 +62,18 @@ static pthread_mutex_t init_mutex = PTHREAD_MUTEX_INITIALIZER;
 void rs_galois_init_tables(void)
 {
   pthread_mutex_lock(&init_mutex);
+  VERIF_YIELD("c_gf0");
   if (init_counter++ > 0) {
     /* already initialized */
+    VERIF_YIELD("c_gf1");
+    VERIF_YIELD("c_gf4");
     pthread_mutex_unlock(&init_mutex);
     return;
   }
+  VERIF_YIELD("c_gf1");
   log_table = (int*)malloc(sizeof(int)*FIELD_SIZE);
   ilog_table_begin = (int*)malloc(sizeof(int)*FIELD_SIZE*3);
+  VERIF_YIELD("c_gf2");
   int i = 0;
   int x = 1;
 
@@ -73,12 +88,15 @@ void rs_galois_init_tables(void)
     }
   }
   ilog_table = &ilog_table_begin[GROUP_SIZE];
+  VERIF_YIELD("c_gf3");
+  VERIF_YIELD("c_gf4");
   pthread_mutex_unlock(&init_mutex);
 }
 
 void rs_galois_deinit_tables(void)
 {
   pthread_mutex_lock(&init_mutex);
+  VERIF_YIELD("d_gf0");
   init_counter--;
   if (init_counter < 0) {
     /* deinit when not initialized?? */
@@ -91,6 +109,7 @@ void rs_galois_deinit_tables(void)
     free(ilog_table_begin);
     ilog_table_begin = NULL;
   }
+  VERIF_YIELD("d_gf1");
   pthread_mutex_unlock(&init_mutex);
 }
 
